@@ -301,7 +301,9 @@ func (ex *Exec) crossCheck(id string, c *Term) {
 	s.assert(tNot(c))
 	r := s.check()
 	s.pop()
-	if r != "unsat" {
+	if r == "unknown" {
+		ex.addEvent("crossunknown", id, nil) // the second solver did not finish within its limit: no second opinion
+	} else if r != "unsat" {
 		ex.addEvent("crossdisagree", id+":"+r, nil)
 	} else {
 		ex.addEvent("crossagree", id, nil)
